@@ -107,6 +107,18 @@ pub struct CoreInner {
 pub struct Core(pub Arc<Mutex<CoreInner>>);
 
 impl Core {
+    /// Deliver an arbitrary datagram to participant `to` (network index) right now, bypassing faults.
+    pub fn inject(&self, to: usize, bytes: Vec<u8>) {
+        let mut c = self.lock();
+        let id = c.next_dgram;
+        c.next_dgram += 1;
+        let now = c.now_ns;
+        let (kinds, desc) = describe(&bytes);
+        c.inflight.push(Datagram { id, from: usize::MAX, to, meta: true, bytes: Arc::new(bytes), deliver_at: now, kinds, decided: true, desc });
+    }
+}
+
+impl Core {
     /// Merge all held user datagrams with the same (from, to) into one RTPS message carrying all
     /// their submessages in sending order (what a batching peer would send). Returns the number
     /// of datagrams that were merged away.
